@@ -635,6 +635,18 @@ impl SimChild {
         }
     }
 
+    /// The parent slept: virtual time passes (1 tick = 1 microsecond of sleep) and the child
+    /// does whatever becomes due meanwhile.
+    pub fn parent_slept(&self, ns: u64) {
+        let mut p = self.lock();
+        p.now = p.now.saturating_add((ns / 1000).max(1));
+        p.generation += 1;
+        p.ev('P', "slept_us", (ns / 1000) as i64, 0);
+        p.run_due();
+        drop(p);
+        self.changed.notify_all();
+    }
+
     pub fn snapshot(&self) -> ProcReport {
         let mut p = self.lock();
         p.stats.vticks = p.now;
